@@ -10,6 +10,7 @@
 mod ambient;
 mod e1;
 mod e2;
+mod e5;
 mod gen;
 mod hooks;
 mod ops;
@@ -73,7 +74,7 @@ pub fn tier_id(t: &str) -> u64 {
     }
 }
 
-fn save_diag_fd() {
+pub fn save_diag_fd() {
     let fd = unsafe { libc::fcntl(2, libc::F_DUPFD_CLOEXEC, 100) };
     if fd >= 0 {
         hooks::DIAG_FD.store(fd, Ordering::Relaxed);
@@ -485,6 +486,14 @@ fn main() {
     let code = match a.pos.first().map(|s| s.as_str()) {
         Some("e1") => e1_main(&a),
         Some("e2") => e2::main(&a),
+        Some("e5") => e5::main(&a),
+        Some("e5-symbols") => {
+            if e5::Symbols::write_cache(&a.str("out", "/dev/null")) {
+                0
+            } else {
+                2
+            }
+        }
         Some("replay") => replay_main(&a),
         Some("distinct") => distinct_main(&a),
         _ => {
